@@ -143,6 +143,7 @@ func init() {
 			}
 		}
 		runGossip(run, "C11", jobs)
+		c11DetectorLoop(run)
 		return run.Finish()
 	})
 	register("C04", func(args []string) int {
